@@ -803,6 +803,7 @@ func TestVerifC13(t *testing.T) {
 	if only == "" || only == "seq" {
 		c13RunTrk(t, stats)
 		c13RunKrn(t, stats)
+		c13RunIb(t, stats)
 		c13RunDrn(t, stats)
 		c13RunKey(t, stats)
 	}
